@@ -1,5 +1,6 @@
 import XmppVerif.Fx
 import XmppVerif.Gen.Fx
+import XmppVerif.Model.C16
 /-
 Tie (regenerated MODEL, trace semantics): what the entry points announce, start and return - on EVERY path.
 
@@ -49,6 +50,48 @@ theorem component_resume_every_path : allTraces (get "Component.Resume") resumeO
 theorem component_resume_every_run :
     ∀ l t, Runs traceSem (get "Component.Resume") [] (.ret l t) → resumeOk t = true :=
   allTraces_sound _ _ component_resume_every_path
+
+-- `Model.C16.resume` IS the regenerated `Component.Resume`, seen through an abstraction: the class of the error
+-- returned (none / permanent / transient), the states announced, whether the handshake was written, whether the
+-- receive loop was started. Both inclusions.
+
+/-- (error: none | some permanent, states announced, handshake written, receive loop started) -/
+abbrev ResumeAbs := Option Bool × List Model.C16.ConnState × Bool × Bool
+
+def stateOfCall (w : String) : Option Model.C16.ConnState :=
+  if w == "Component.updateState(StateSessionEstablished)" then some .sessionEstablished
+  else if w == "Component.updateState(StatePermanentError)" then some .permanentError
+  else if w == "Component.updateState(StateStreamError)" then some .streamError
+  else if w.startsWith "Component.streamError(" then some .streamError
+  else none
+
+def absOfTrace (t : List Act) : ResumeAbs :=
+  let err : Option Bool :=
+    if t.contains (.call "NewConnError(_,true)") then some true
+    else if t.contains (.call "NewConnError(_,false)") then some false else none
+  (err, t.filterMap (fun a => match a with | .call w => stateOfCall w | _ => none), t.contains .write, t.any isSpawn)
+
+def absOfModel (r : Model.C16.Result) : ResumeAbs := (r.err, r.states, r.sentDigest.isSome, r.recvStarted)
+
+/-- every class of input of the model: what Connect did, whether the handshake could be written, the reply -/
+def resumeInputs : List (Model.C16.Connect × Bool × Model.C16.Reply) :=
+  [(.refused, true, .handshake), (.noStream, true, .handshake), (.opened [], false, .handshake),
+   (.opened [], true, .handshake), (.opened [], true, .streamError), (.opened [], true, .other),
+   (.opened [], true, .decodeError)]
+
+def sameAbs (a b : List ResumeAbs) : Bool := a.all b.contains && b.all a.contains
+
+/-- **`Model.C16.resume` = the regenerated `Component.Resume`** (as sets of abstract outcomes): every case of the model
+is a path of the code - same error class, same announcement, handshake written or not, receive loop started or not -
+and the code has no other path. (A failed write is reported without the digest in the model: `sentDigest = none` there
+means "not on the wire"; the code has attempted the write - the abstraction of the model's `writeOk = false` case says
+"written" for that reason.) -/
+theorem component_model_is_the_code :
+    ((traces (get "Component.Resume")).map fun ts =>
+      sameAbs (ts.map absOfTrace)
+        (resumeInputs.map fun (c, w, r) =>
+          let m := absOfModel (Model.C16.resume c [] w r)
+          if w then m else (m.1, m.2.1, true, m.2.2.2))) = some true := by decide +kernel
 
 def hooks : List String := ["Client.PostConnectHook", "Client.PostResumeHook"]
 
@@ -117,10 +160,12 @@ def newSessionOk (t : List Act) : Bool :=
   (!st.contains "Session.EnableStreamManagement" || st.contains "Session.rfc3921Session") &&
   -- the TLS gate (the permanent error built when the transport is not secure and Insecure is off) comes before auth:
   -- a path that reaches auth has looked at IsSecure twice (before STARTTLS, at the gate) and built no such error
-  (!st.contains "Session.auth" || (cnt2 (.call "Transport.IsSecure") t == 2 && !t.contains (.call "fmt.Errorf"))) &&
+  (!st.contains "Session.auth" || (cnt2 (.call "Transport.IsSecure") t == 2 && !t.any gateError)) &&
   -- a path that builds the gate's error authenticates nothing
-  (!t.contains (.call "fmt.Errorf") || !st.contains "Session.auth")
-where cnt2 (a : Act) (t : List Act) : Nat := (t.filter (· == a)).length
+  (!t.any gateError || !st.contains "Session.auth")
+where
+  cnt2 (a : Act) (t : List Act) : Nat := (t.filter (· == a)).length
+  gateError : Act → Bool := callNamed fun w => w.startsWith "fmt.Errorf("
 
 theorem new_session_every_path : allTraces (get "NewSession") newSessionOk = true := by decide +kernel
 
@@ -135,8 +180,8 @@ example : newSessionOk [.call "Session.init", .call "Transport.IsSecure", .call 
 /-- StreamManager.Stop: handler removed, client disconnected, Run released - in this order, on its only path -/
 theorem stop_every_path :
     allTraces (get "StreamManager.Stop") (fun t =>
-      (t.filter (callNamed fun w => w == "StreamClient.SetHandler" || w == "StreamClient.Disconnect" || w == "WaitGroup.Done")) ==
-        [.call "StreamClient.SetHandler", .call "StreamClient.Disconnect", .call "WaitGroup.Done"]) = true := by decide
+      (t.filter (callNamed fun w => w.startsWith "StreamClient.SetHandler" || w == "StreamClient.Disconnect" || w == "WaitGroup.Done")) ==
+        [.call "StreamClient.SetHandler(nil)", .call "StreamClient.Disconnect", .call "WaitGroup.Done"]) = true := by decide +kernel
 
 -- the predicates are not vacuous: they refuse a keepalive started before the hook, a receive loop started on the
 -- stream-error arm, an established state announced after a failed NewSession
@@ -159,3 +204,4 @@ end XmppVerif.Tie.FxConn
 #print axioms XmppVerif.Tie.FxConn.stop_every_path
 #print axioms XmppVerif.Tie.FxConn.new_session_every_path
 #print axioms XmppVerif.Tie.FxConn.new_session_every_run
+#print axioms XmppVerif.Tie.FxConn.component_model_is_the_code
